@@ -80,6 +80,23 @@ def load_findings(pid: str):
     return [f for f in data.get("findings", []) if f["property"] == pid or pid in f.get("also", [])]
 
 
+def _check_evidence_shape(ev):
+    """the keys /root/.vp/EVIDENCE.schema.json types (stdlib only: the schema validator lives in another venv)"""
+    cov = ev["coverage"]
+    ints = ("evaluations", "distinct_nontrivial", "states", "transitions", "traces_validated_against_impl", "obligations",
+            "discharged", "programs", "disagreements_checked")
+    for k in ints:
+        if k in cov and not (isinstance(cov[k], int) and not isinstance(cov[k], bool) and cov[k] >= 0):
+            raise MachineryError(f"evidence: coverage.{k} must be a non-negative integer, got {cov[k]!r}")
+    if "exhaustive" in cov and not isinstance(cov["exhaustive"], bool):
+        raise MachineryError(f"evidence: coverage.exhaustive must be a boolean, got {type(cov['exhaustive']).__name__}")
+    for k in ("rule", "explanation", "checker_cmd"):
+        if k in cov and not isinstance(cov[k], str):
+            raise MachineryError(f"evidence: coverage.{k} must be a string")
+    if "samples" in cov and not isinstance(cov["samples"], list):
+        raise MachineryError("evidence: coverage.samples must be a list")
+
+
 def write_evidence(pid, tier, seed, rep: Report, wall, nviol):
     cov = {
         "states": rep.states,
@@ -94,6 +111,7 @@ def write_evidence(pid, tier, seed, rep: Report, wall, nviol):
         "coverage": cov, "assumptions": rep.assumptions, "wall_s": round(wall, 2),
         "violations": nviol,
     }
+    _check_evidence_shape(ev)
     EVID.mkdir(exist_ok=True)
     suffix = os.environ.get("VERIF_EVID_SUFFIX", "")       # seeded-mutant runs must not clobber real evidence
     (EVID / f"{pid}{suffix}.json").write_text(json.dumps(ev, indent=1, default=str) + "\n")
@@ -150,7 +168,11 @@ def main(argv=None):
         if len(seen) >= 10:
             break
     rep.extra["known_findings_reproduced"] = sorted(printed)
-    write_evidence(pid, a.tier, a.seed, rep, wall, len(real))
+    try:
+        write_evidence(pid, a.tier, a.seed, rep, wall, len(real))
+    except MachineryError as e:
+        print(f"MACHINERY-FAILURE property={pid}: {e}", flush=True)
+        return 2
     print(f"{pid} tier={a.tier} seed={a.seed} states={rep.states} transitions={rep.transitions} "
           f"traces={rep.traces} violations={len(real)} known={len(printed)} wall={wall:.1f}s", flush=True)
     return 1 if real else 0
